@@ -257,20 +257,6 @@ func (fd *Client) DeleteItem(ctx context.Context, input *dynamodb.DeleteItemInpu
 		return nil, mapKnownError(err)
 	}
 
-	// support conditional writes
-	if input.ConditionExpression != nil {
-		items, _ := table.SearchData(core.QueryInput{
-			Index:                     core.PrimaryIndexName,
-			ExpressionAttributeValues: mapDynamoToTypesMapItem(input.ExpressionAttributeValues),
-			Aliases:                   input.ExpressionAttributeNames,
-			Limit:                     aws.ToInt64(aws.Int64(1)),
-			ConditionExpression:       input.ConditionExpression,
-		})
-		if len(items) == 0 {
-			return &dynamodb.DeleteItemOutput{}, &types.ConditionalCheckFailedException{Message: aws.String(core.ErrConditionalRequestFailed.Error())}
-		}
-	}
-
 	item, err := table.Delete(mapDynamoToTypesDeleteItemInput(input))
 	if err != nil {
 		return nil, mapKnownError(err)
